@@ -1,5 +1,5 @@
 CONSTANTS
-  Types <- TypesAll
+  Types <- TypesAllFF
   MaxSet = 3
   FormsAll = TRUE
 SPECIFICATION FSpec
